@@ -100,38 +100,38 @@ def strLt : Str → Str → Bool
   | _ :: _, [] => false
   | a :: as, b :: bs => a.toNat < b.toNat || (a = b && strLt as bs)
 
-def insertKey (k : Str) : List Str → List Str
-  | [] => [k]
-  | x :: xs => if strLt x k then x :: insertKey k xs else k :: x :: xs
+def insertPair (p : Str × Val) : List (Str × Val) → List (Str × Val)
+  | [] => [p]
+  | x :: xs => if strLt p.1 x.1 then p :: x :: xs else x :: insertPair p xs
 
-/-- `sorted(names)` (what `dir()` does) -/
-def sortKeys (ks : List Str) : List Str := ks.foldr insertKey []
+/-- the instance attributes in the order of `dir(self)`: sorted by name -/
+def sortPairs (ps : List (Str × Val)) : List (Str × Val) := ps.foldr insertPair []
 
 /-- `Styling.__iter__`: the marker attributes that the defaults know (the `getattr(super(), …)` test never
-sees instance attributes), then `dir(self)` -/
-def iterKeys (defaults : List (Str × Val)) (s : Styling) : List Str :=
-  ([markerStart, markerEnd].filter fun a => (lookup defaults (s.styleName a)).isSome)
-    ++ sortKeys (s.attrs.map (·.1))
+sees instance attributes), then `dir(self)`; each with the instance value (irrelevant for marker names) -/
+def iterItems (defaults : List (Str × Val)) (s : Styling) : List (Str × Val) :=
+  (([markerStart, markerEnd].filter fun a => (lookup defaults (s.styleName a)).isSome).map fun a => (a, Val.none))
+    ++ sortPairs s.attrs
 
 def gradEl (hs : List Str) : DefEl := { kind := .gradient, id := gradId hs, ids := [gradId hs], refs := [] }
 
 /-- body of `for attr in styling:` — `getattr(styling, attr)` builds the `url(...)` string for a marker
 attribute (and raises if the stroke is no colour); an iterable value gets its gradient -/
-def gradStep (defaults : List (Str × Val)) (s : Styling) (st : DState) (k : Str) : Except Err DState :=
-  if isMarkerKey k then do
+def gradStep (defaults : List (Str × Val)) (s : Styling) (st : DState) (kv : Str × Val) : Except Err DState :=
+  if isMarkerKey kv.1 then do
     let _ ← hexOf (refStroke defaults s)
     pure (st.note .iterMarker)
   else
-    match lookup s.attrs k with
-    | some (.grad hs) =>
+    match kv.2 with
+    | .grad hs =>
       if st.topIds.contains (gradId hs) then pure (st.note .gradDup)
       else pure ((st.push (gradEl hs)).note .gradNew)
     | _ => pure (st.note .gradSkip)
 
-def gradLoop (defaults : List (Str × Val)) (s : Styling) : List Str → DState → Except Err DState
+def gradLoop (defaults : List (Str × Val)) (s : Styling) : List (Str × Val) → DState → Except Err DState
   | [], st => .ok st
-  | k :: ks, st => do
-    let st' ← gradStep defaults s st k
+  | kv :: ks, st => do
+    let st' ← gradStep defaults s st kv
     gradLoop defaults s ks st'
 
 def markerEl (id : Str) : DefEl := { kind := .marker, id := id, ids := [id], refs := [] }
@@ -152,7 +152,7 @@ def markerStep (defaults : List (Str × Val)) (markers : List MarkerRow) (s : St
 /-- `Drawing._deploy_defs(styling)` -/
 def deployDefs (styles : List StyleEntry) (markers : List MarkerRow) (s : Styling) (st : DState) : Except Err DState := do
   let defaults ← getStyle styles s.dc s.cls
-  let st1 ← gradLoop defaults s (iterKeys defaults s) st
+  let st1 ← gradLoop defaults s (iterItems defaults s) st
   let st2 ← markerStep defaults markers s st1 markerStart
   markerStep defaults markers s st2 markerEnd
 
@@ -160,8 +160,11 @@ def deployDefs (styles : List StyleEntry) (markers : List MarkerRow) (s : Stylin
 
 structure DrawnS where
   group : Group
-  refs : List Str
+  outer : List Str    -- ids referenced from the group itself: `url(#…)` of markers and gradients, `href="#…Symbol"`
+  inner : List Str    -- ids referenced from inside the symbol fragments the group relies on
 deriving Repr
+
+def DrawnS.refs (d : DrawnS) : List Str := d.outer ++ d.inner
 
 /-- `Drawing.draw_object(obj)` on the drawing state `st` -/
 def drawObjectS (T : Tables) (dc : Option Str) (o : Obj) (st : DState) : Except Err (DrawnS × DState) := do
@@ -175,8 +178,8 @@ def drawObjectS (T : Tables) (dc : Option Str) (o : Obj) (st : DState) : Except 
     let st2 ← deployDefs T.styles T.markers p.objStyle st1
     let st3 ← deployDefs T.styles T.markers p.textStyle st2
     pure ({ group := { id := o.id, cls := groupClass o.kind o.cls o.context },
-            refs := shapeRefs ++ textRefs ++ p.uses.map (· ++ symbolSuffix)
-                    ++ p.uses.flatMap (symbolInnerRefs T.symbols (T.symbols.length + 1)) }, st3)
+            outer := shapeRefs ++ textRefs ++ p.uses.map (· ++ symbolSuffix),
+            inner := p.uses.flatMap (symbolInnerRefs T.symbols (T.symbols.length + 1)) }, st3)
 
 /-- `for obj in objects: self.draw_object(obj)` -/
 def drawAllS (T : Tables) (dc : Option Str) : List Obj → DState → Except Err (List DrawnS × DState)
@@ -190,6 +193,7 @@ structure DocS where
   viewBox : Int × Int × Int × Int
   groups : List Group
   refs : List Str
+  outerRefs : List Str    -- the references made by the groups themselves
   defs : List DefEl       -- the children of `<defs>`, in document order
   log : List Br
 
@@ -198,6 +202,37 @@ def renderS (T : Tables) (d : Diagram) : Except Err DocS := do
   let (box, objs) := encodeDiagram d
   let (drawn, st) ← drawAllS T d.cls objs {}
   pure { viewBox := viewBox box, groups := drawn.map (·.group), refs := drawn.flatMap (·.refs),
-         defs := st.defs, log := st.log }
+         outerRefs := drawn.flatMap (·.outer), defs := st.defs, log := st.log }
+
+/-! ### conditions on the generated tables (checked by the kernel) -/
+
+/-- colour values are hex strings (what `RGB.tohex()` returns) -/
+def Val.hexOK : Val → Bool
+  | .color h => h.all hexDigit
+  | .grad hs => hs.all (·.all hexDigit)
+  | _ => true
+
+def entryHexOK (e : StyleEntry) : Bool := e.props.all fun p => p.2.hexOK
+
+/-- the dependencies of a symbol have no dependencies themselves -/
+def depthOK (symbols : List SymbolRow) (r : SymbolRow) : Bool :=
+  r.deps.all fun d => match findSymbol symbols d with | some s => s.deps.isEmpty | none => true
+
+def rankOf (symbols : List SymbolRow) (cls : Str) : Nat :=
+  match findSymbol symbols cls with
+  | some r => if r.deps.isEmpty then 0 else 1
+  | none => 0
+
+/-- marker names (and `CustomGradient`) contain no `_`: `_generate_id` can be read back -/
+def markerNameOK (m : MarkerRow) : Bool := !m.name.contains '_'
+
+/-- ids defined more than once by the fragments of the symbol table -/
+def clashIds (symbols : List SymbolRow) : List Str :=
+  let all := symbols.flatMap (·.ids)
+  (all.filter fun i => all.count i > 1).eraseDups
+
+/-- (row, id, digest of the canonical form of the defining element): equal ids have equal digests -/
+def digestsConsistent (ds : List (Str × Str × Str)) : Bool :=
+  ds.all fun a => ds.all fun b => a.2.1 != b.2.1 || a.2.2 == b.2.2
 
 end Capella.Svg
